@@ -312,8 +312,12 @@ class Parser:
     #   Return: tokens to be inserted
     #
     def expand_macro(self, buf, tok, math):
-        buf.next()
-        buf.skip_space()    # for macros without arguments, even if known
+        # skip space for macros without arguments, even if known;
+        # but do not swallow a language switch, e.g. the end of the
+        # argument of \foreignlanguage
+        t = buf.next()
+        while buf.is_space(t) and type(t) is not defs.LanguageToken:
+            t = buf.next()
         if tok.txt not in self.the_macros:
             if not (math or tok.txt in self.unknowns):
                 self.unknowns.append(tok.txt)
